@@ -71,7 +71,7 @@ def r12_2(ctx: Ctx):
                     else:
                         st = INCONCLUSIVE
                     obs.append(ctx.ob("R12.2", f, c, status=st, detail=f"{cname}: draws pop_size points per generation" if st == OK else f"{cname}: draws `{at}` points instead of the configured population size", construct=f"{cname}:sample-size"))
-    for o in c07.r07_8(ctx):
+    for o in c07.r07_8(ctx, need="size"):
         if "size" in o.construct or "seed-appended" in o.construct:
             o.rule = "R12.2"
             obs.append(o)
@@ -219,7 +219,7 @@ def r12_4(ctx: Ctx):
 
         pn, sn = mw.params()[1], mw.self_name()
         mdefs = local_defs(mw)
-        loops = [n for n in body_walk(mw.node) if isinstance(n, ast.For) and isinstance(n.iter, ast.Call) and norm(n.iter.func) == "range" and len(n.iter.args) == 1 and any(isinstance(c, ast.Call) and isinstance(c.func, ast.Attribute) and c.func.attr == "merge" for c in ast.walk(n))]
+        loops = [n for n in body_walk(mw.node) if isinstance(n, ast.For) and isinstance(n.iter, ast.Call) and norm(n.iter.func) == "range" and len(n.iter.args) == 1 and any(isinstance(c, ast.Call) and ((isinstance(c.func, ast.Attribute) and c.func.attr == "merge") or any(canon(a_) == f"{sn}.k" for a_ in list(c.args) + [k_.value for k_ in c.keywords])) for c in ast.walk(n))]
         if len(loops) != 1:
             obs.append(ctx.ob("R12.4", mw, mw.node, status=INCONCLUSIVE, detail="MultiwinnerRepeatedSelection: the loop of elections was not found", construct="mw-elections"))
         else:
